@@ -714,6 +714,21 @@ namespace Clipper2Lib {
         if (going_up0) AddLocMin(locMinList, *prev_v, polytype, false);
         else prev_v->flags = prev_v->flags | VertexFlags::LocalMax;
       }
+#ifdef CLIPPER2_VERIF
+      if (verif::vertex_fn)
+      {
+        int n = 0;
+        Vertex* vv = v0;
+        do
+        {
+          const long long rec[5] = { vv->pt.x, vv->pt.y, static_cast<long long>(vv->flags),
+            static_cast<long long>(polytype), is_open };
+          verif::vertex_fn(n++, rec);
+          vv = vv->next;
+        } while (vv != v0);
+        verif::vertex_fn(-1, nullptr);
+      }
+#endif
     } // end processing current path
   }
 
